@@ -918,7 +918,7 @@ where
                         self.elem_format_code = Some(format_code);
 
                         // Account for offset
-                        let len = len - OFFSET_ARRAY8;
+                        let len = len.checked_sub(OFFSET_ARRAY8).ok_or(Error::InvalidLength)?;
                         // let buf = self.reader.read_bytes(len)?;
 
                         visitor.visit_seq(ArrayAccess::new(self, len, count))
@@ -954,7 +954,7 @@ where
                         self.elem_format_code = Some(format_code);
 
                         // Account for offset
-                        let len = len - OFFSET_ARRAY32;
+                        let len = len.checked_sub(OFFSET_ARRAY32).ok_or(Error::InvalidLength)?;
                         // let buf = self.reader.read_bytes(len)?;
 
                         visitor.visit_seq(ArrayAccess::new(self, len, count))
@@ -979,7 +979,7 @@ where
                     as usize;
 
                 // Account for offset
-                let len = len - OFFSET_LIST8;
+                let len = len.checked_sub(OFFSET_LIST8).ok_or(Error::InvalidLength)?;
 
                 // Make sure there is no other element format code
                 self.elem_format_code = None;
@@ -1000,7 +1000,7 @@ where
                 }
 
                 // Account for offset
-                let len = len - OFFSET_LIST32;
+                let len = len.checked_sub(OFFSET_LIST32).ok_or(Error::InvalidLength)?;
 
                 // Make sure there is no other element format code
                 self.elem_format_code = None;
@@ -1038,7 +1038,7 @@ where
                     as usize;
 
                 // Account for offset
-                let size = size - OFFSET_LIST8;
+                let size = size.checked_sub(OFFSET_LIST8).ok_or(Error::InvalidLength)?;
 
                 // Make sure there is no other element format code
                 self.elem_format_code = None;
@@ -1051,7 +1051,7 @@ where
                 let count = u32::from_be_bytes(count_bytes) as usize;
 
                 // Account for offset
-                let size = size - OFFSET_LIST32;
+                let size = size.checked_sub(OFFSET_LIST32).ok_or(Error::InvalidLength)?;
 
                 // Make sure there is no other element format code
                 self.elem_format_code = None;
@@ -1088,7 +1088,7 @@ where
                     as usize;
 
                 // Account for offset
-                let size = size - OFFSET_MAP8;
+                let size = size.checked_sub(OFFSET_MAP8).ok_or(Error::InvalidLength)?;
 
                 (size, count)
             }
@@ -1107,7 +1107,7 @@ where
                 }
 
                 // Account for offset
-                let size = size - OFFSET_MAP32;
+                let size = size.checked_sub(OFFSET_MAP32).ok_or(Error::InvalidLength)?;
 
                 (size, count)
             }
@@ -1579,7 +1579,8 @@ impl<'de, R: Read<'de>> de::MapAccess<'de> for MapAccess<'_, R> {
     where
         V: de::DeserializeSeed<'de>,
     {
-        self.count -= 1;
+        // An odd map count leaves a key without a value
+        self.count = self.count.checked_sub(1).ok_or(Error::InvalidLength)?;
         seed.deserialize(self.as_mut())
     }
 
@@ -1595,8 +1596,9 @@ impl<'de, R: Read<'de>> de::MapAccess<'de> for MapAccess<'_, R> {
         match self.count {
             0 => Ok(None),
             _ => {
-                // AMQP map count includes both key and value
-                self.count -= 2;
+                // AMQP map count includes both key and value; an odd count
+                // leaves a key without a value
+                self.count = self.count.checked_sub(2).ok_or(Error::InvalidLength)?;
                 let key = kseed.deserialize(self.as_mut())?;
                 let val = vseed.deserialize(self.as_mut())?;
                 Ok(Some((key, val)))
@@ -1797,7 +1799,10 @@ impl<'de, R: Read<'de>> de::SeqAccess<'de> for DescribedAccess<'_, R> {
                 // list headers
                 if self.counter == 0 {
                     if let StructEncoding::DescribedList = self.de.struct_encoding {
-                        self.field_count += self.consume_list_header()?;
+                        self.field_count = self
+                            .field_count
+                            .checked_add(self.consume_list_header()?)
+                            .ok_or(Error::InvalidLength)?;
                     }
                 }
                 result
@@ -1837,7 +1842,10 @@ impl<'de, R: Read<'de>> de::MapAccess<'de> for DescribedAccess<'_, R> {
                 let result = seed.deserialize(self.as_mut()).map(Some);
                 if self.counter == 0 {
                     if let StructEncoding::DescribedMap = self.de.struct_encoding {
-                        self.field_count += self.consume_map_header()?;
+                        self.field_count = self
+                            .field_count
+                            .checked_add(self.consume_map_header()?)
+                            .ok_or(Error::InvalidLength)?;
                     }
                 }
                 result
